@@ -141,7 +141,16 @@ def _build(cfg):
         return fu.QAM(cfg['M'])
     if cfg.get('set'):        # history: construct, then setPhaseOffset
         m = fu.PSK(cfg['M'])
+        if cfg.get('warm'):
+            # use the object before the table changes: modulate / demodulate
+            # may fill caches that the later update must invalidate
+            idx = np.arange(cfg['M'])
+            m.demodulate(m.modulate(idx))
+            m.demodulate(np.array([0.3 - 0.2j, 2.0 + 1.0j]))
         m.setPhaseOffset(_offset(cfg['off'], cfg['M']))
+        if cfg.get('warm') == 'twice':
+            m.demodulate(np.array([-0.7 + 0.1j]))
+            m.setPhaseOffset(_offset(cfg['off'], cfg['M']) + 0.25)
         return m
     return fu.PSK(cfg['M'], _offset(cfg.get('off', 0), cfg['M']))
 
@@ -255,6 +264,12 @@ class Detect(Harness):
                 i += 1
         out += [dict(kind='PSK', M=8, off=0.3, set=True, shape=[1]),
                 dict(kind='PSK', M=16, off=0.3, set=True, shape=[1]),
+                dict(kind='PSK', M=4, off='pi/M', set=True, warm=True,
+                     shape=[1]),
+                dict(kind='PSK', M=8, off=0.3, set=True, warm=True,
+                     shape=[1]),
+                dict(kind='PSK', M=8, off=0.3, set=True, warm='twice',
+                     shape=[1]),
                 dict(kind='PSK', M=4, off=0.3, shape=[1, 2]),
                 dict(kind='PSK', M=8, off=0.3, shape=[2, 1]),
                 dict(kind='QAM', M=4, shape=[1]),
@@ -306,8 +321,14 @@ class Detect(Harness):
                            model=ctx.witness() or {})
                 continue
             dk = (tab[k] - r).abs2()
+            # rounding-level slack (floats are reals here): 1e-9 (1 + u)
+            # with u >= |re r|, |im r| universally quantified; the
+            # difference of squared distances is linear in r
+            u = ctx.real('slack%d_%d' % (i, len(ctx.obligations)), lo=0)
+            ctx.assume(And(u >= r.re, u >= -r.re, u >= r.im, u >= -r.im))
+            tol = (1 + u) * Fraction(1, 10**9)
             ctx.prove('nearest',
-                      And(*[dk <= (c - r).abs2() for c in tab]))
+                      And(*[dk <= (c - r).abs2() + tol for c in tab]))
 
     # -- float side ---------------------------------------------------------
     def _run_float(self, cfg, vals):
